@@ -210,11 +210,11 @@ func parseFlags(s string) (script string, per map[string]map[string]string) {
 
 // prediction: what the Lean model of the UNCHANGED planner does on a vsys pair (driver op PREDICT).
 type prediction struct {
-	ok                  bool
-	N, Accepted         int
-	Err, Equiv, Mism    string
-	WF, SgDropRef       bool
-	Shape1, Shape2      string // three bits: only mixed lists / only changed service-groups / only these two kinds
+	ok                   bool
+	N, Accepted          int
+	Err, Equiv, Mism     string
+	WF, SgDropRef        bool
+	Shape1, Shape2       string // three bits: only mixed lists / only changed service-groups / only these two kinds
 	Refused, Plan, Plan2 string
 }
 
@@ -515,22 +515,35 @@ func (c *checker) decodeCheck(stream string, in caseInput, p realPlan) bool {
 			c.failAny("input_misread", stream+": the tool reads the target configuration differently from its text: "+d, in)
 			return false
 		}
-	case in.expectText != "":
-		wb, err := readConfig(in.expectText)
+	default:
+		// the merged target: computed on the independent reading of the three files, and held against
+		// the merged target the generator split into these files (absent in a replay)
+		wb, err := mergeTexts(in.Spoc, in.V6, in.Raw)
 		if err != nil {
-			res.Disagree(stream+" (harness: expected target not well-formed: "+err.Error()+")", in, "", "")
+			res.Disagree(stream+" (harness: a part of the target is not well-formed XML: "+err.Error()+")", in, "", "")
 			return false
+		}
+		if in.expectText != "" {
+			we, err := readConfig(in.expectText)
+			if err != nil {
+				res.Disagree(stream+" (harness: expected target not well-formed: "+err.Error()+")", in, "", "")
+				return false
+			}
+			if d := sameIConfig(we, wb); d != "" {
+				res.Disagree(stream+" (harness: the generator's merged target and the independent merge of its files differ: "+d+")", in, "", "")
+				return false
+			}
+			res.Count("decode-check:merged-target-is-the-generators")
 		}
 		if d := compareDecoded(p.B, wb, false); d != "" {
 			res.Disagree(stream+" (decoding / merging of the target from main, ipv6 and raw file: "+d+")", in, "", "")
-			c.failAny("input_misread", stream+": the merged target differs from what the generator split into files: "+d, in)
+			c.failAny("input_misread", stream+": the merged target differs from what the main, IPv6 and raw file say per vsys: "+d, in)
 			return false
 		}
 		res.Count("decode-check:merged-target")
-	default:
-		// a replayed case with raw / IPv6 parts: the generator's merged target is not recorded
-		res.Count("decode-check-skipped:merged-target-of-a-replay")
-		return true
+		if len(wb.Vsys) > 1 {
+			res.Count("decode-check:merged-target-of-several-vsys")
+		}
 	}
 	res.Count("decode-check:ok")
 	return true
@@ -1042,6 +1055,10 @@ func (c *checker) floors() {
 	check(skipped*5 <= pairs, fmt.Sprintf("%d pairs skipped (not well-formed / nested groups) against %d judged", skipped, pairs))
 	check(d["case:no-plan"]*10 <= cases, fmt.Sprintf("%d of %d cases ended without a plan", d["case:no-plan"], cases))
 	check(d["decode-check:ok"]+d["decode-check-skipped:merged-target-of-a-replay"] >= pairs, "the decoding of fewer configurations than judged pairs was checked")
+	if c.ctx == nil || !c.isReplay {
+		check(d["decode-check:merged-target-of-several-vsys"] >= 3+cases/60,
+			fmt.Sprintf("a target merged from main, IPv6 and raw file with two or more vsys was checked only %d times in %d cases", d["decode-check:merged-target-of-several-vsys"], cases))
+	}
 	check(d["oracle-skipped:no-second-plan"]*50 <= d["oracle:converged"]+50, fmt.Sprintf("%d second plans missing", d["oracle-skipped:no-second-plan"]))
 	check(d["oracle:reached-state-wellformed"]*10 >= pairs*9, "well-formedness of the reached state judged for too few pairs")
 	if cuts := d["resume:cuts"]; cuts > 0 {
